@@ -431,7 +431,7 @@ def replay_case(record: Dict[str, Any], journal: Any) -> Dict[str, Any]:
 
 
 def shard_crash(spec: Dict[str, Any], res: Dict[str, Any]) -> Optional[Dict[str, Any]]:
-    if res.get('rc') is not None and res.get('journal'):
+    if res.get('rc') is not None and res.get('rc') != 'memory' and res.get('journal'):
         return {'key': f'process-died/rc{res["rc"]}', 'what': f'worker died (rc={res["rc"]}) while handling a file',
                 'replay': res['journal']}
     return None
